@@ -522,7 +522,7 @@ emitFileName(EmitInfo finfo, FTypeNo ft)
 	FTypeNo			fto = ft;
 	int			i;
 
-	if (emitOutputFileName[ft])
+	if (emitOutputFileName[ft] && !emitInfoIsAXLmain(finfo))
 		return emitOutputFileName[ft];
 
 	if (emitInfoFname(finfo, ft))
@@ -738,7 +738,7 @@ emitFileRename(EmitInfo finfo, FTypeNo ft)
 	if (emitInfoIsAXLmain(finfo)) return;
 
 	if (!ftypeIs(fnameType(srcfn), ft) && !strEqual(name, fnameName(ofn))
-	    && emitKeep[ft]) {
+	    && emitKeep[ft] && !emitOutputFileName[ft]) {
 		nfn = fnameNew(fnameDir(ofn), name, fnameType(ofn));
 		emitInfoFname(finfo, ft) = nfn;
 		fileRename(ofn, nfn);
@@ -759,7 +759,7 @@ emitFileRemove(EmitInfo finfo, FTypeNo ft)
 	/* Remove an existing C/object file if it's going to be overwritten
 	   later in emitFileRename.  */
 	if (!ftypeIs(fnameType(srcfn), ft) && !strEqual(name, fnameName(ofn))
-	    && emitKeep[ft]) {
+	    && emitKeep[ft] && !emitOutputFileName[ft]) {
 		nfn = fnameNew(fnameDir(ofn), name, fnameType(ofn));
 		fileRemove(nfn);
 		fnameFree(nfn);
